@@ -29,6 +29,7 @@ def check(run):
     run.rule('TBL.format', 'the default format used to print a date-time is one the parser tries')
     for cfg in configs(run):
         F = run.facts(cfg)
+        if cfg == 'base': __import__('common').pins(run, F, 'time_prims')
         G = panics.PanicGraph(F)
         entries = []
         for suffix in ('TimeDelta::parse', 'DateTime::<U>::parse', 'time::Time::parse'):
